@@ -756,7 +756,8 @@ func runC04(ctx *Ctx) *Result {
 
 // coverage floors: what the property names must really have been reached
 func c04Floors(res *Result) {
-	if res.Broken != "" {
+	// a missed floor next to a violation is explained by the violation
+	if res.Broken != "" || len(res.Violations) > 0 {
 		return
 	}
 	floor := func(key string, min int) {
